@@ -264,11 +264,18 @@ def _run(ctx, pq):
         ragged_hive = rng.random() < 0.5
         names = rng.sample(["a", "b", "c_1", "dir0", "Key"], depth)
         kinds = [rng.choice(KINDS + [None, None]) for _ in range(depth)]
+        # drill levels WITHOUT text that mix kinds colliding under Python's == (1 == 1.0 == True == 1e0 == 01): C08_drill_numeric_level
+        numfam = shape == "drill" and rng.random() < 0.3
+        if numfam:
+            kinds = [None] * depth
         pools = []
         any_time = any(kd is not None and (kd[0] in (4, 7) or (kd[0] == 5 and len(kd) > 1 and kd[1][0] in (4, 7)))
                        for kd in kinds)     # "now" is the wall clock for time kinds
         for kd in kinds:
             pool = []
+            if numfam:
+                pools.append(rng.sample(["1", "1.0", "True", "2", "2.5", "0", "False", "1e0", "01", "0.0", "-0", "2.0", "10", "1_0"], rng.choice([2, 3, 4])))
+                continue
             for _ in range(rng.choice([1, 2, 3])):
                 if kd is None or rng.random() < 0.3:
                     pool.append(rng.choice([t for t in ADVERSARIAL if L.legal_text(t, True)
@@ -363,6 +370,18 @@ def _run(ctx, pq):
                     if got.get(k) != want_l:
                         ctx.fail({"component": "_path_to_cats", "scheme": "drill", "stage": "mixed-level-labels"}, case,
                                  "drill level %s holds text: labels %r, its directory texts %r" % (k, sorted(got.get(k, [])), sorted(want_l)))
+                else:
+                    # C08_drill_numeric_level on the real code: no text in the level - every label is the guess of one of its directory
+                    # texts, and every directory text has a label == (Python's ==) to its guess
+                    ctx.count("D.mixed_level", "no text: %d kinds" % len({type(util._val_to_num(t)).__name__ for t in texts}))
+                    raw = api.paths_to_cats(paths, pm)[1].get(k, [])
+                    guesses = [util._val_to_num(t) for t in texts]
+                    bad_l = [lab for lab in raw if not any(type(lab) is type(g) and (lab == g or (lab != lab and g != g)) for g in guesses)]
+                    bad_t = [t for t, g in zip(texts, guesses) if not any(lab == g or (lab != lab and g != g) for lab in raw)]
+                    if bad_l or bad_t:
+                        ctx.fail({"component": "_path_to_cats", "scheme": "drill", "stage": "numeric-level-labels"}, case,
+                                 "drill level %s holds no text: labels %r; labels that are no guess of a directory text %r; directory texts without an == label %r"
+                                 % (k, raw, bad_l, bad_t))
 
     if "strip" in (getattr(ctx, "gen_paths", None) or ()):       # the regenerated text itself, evaluated by the kernel, against the real function
         ok_paths = sorted({p for p in d_paths if L.coq_ascii_ok(p)})
